@@ -215,6 +215,12 @@ func modelApply(st MStep, n interface{}) []mslot {
 					out = append(out, arraySlots(a)...)
 					continue
 				}
+				if j < len(st.Slice) && st.Slice[j] != nil {
+					for _, k := range pythonSlice(st.Slice[j], len(a)) {
+						out = append(out, mslot{a: a, idx: k})
+					}
+					continue
+				}
 				if i < 0 {
 					i += len(a)
 				}
@@ -545,4 +551,77 @@ func editInPlace(v interface{}, pick int) {
 		a := arrs[pick%len(arrs)]
 		a[(pick/5)%len(a)] = float64(pick % 9)
 	}
+}
+
+// pythonSlice returns the indices a Python slice start:end:step selects from a sequence of
+// length n (step 0 selects nothing).
+func pythonSlice(sl *[3]*int, n int) []int {
+	step := 1
+	if sl[2] != nil {
+		step = *sl[2]
+	}
+	if step == 0 {
+		return nil
+	}
+	var out []int
+	if step > 0 {
+		start, end := 0, n
+		if sl[0] != nil {
+			start = *sl[0]
+			if start < 0 {
+				start += n
+				if start < 0 {
+					start = 0
+				}
+			}
+			if start > n {
+				start = n
+			}
+		}
+		if sl[1] != nil {
+			end = *sl[1]
+			if end < 0 {
+				end += n
+				if end < 0 {
+					end = 0
+				}
+			}
+			if end > n {
+				end = n
+			}
+		}
+		for i := start; i < end; i += step {
+			out = append(out, i)
+		}
+		return out
+	}
+	start, end := n-1, -1
+	if sl[0] != nil {
+		start = *sl[0]
+		if start < 0 {
+			start += n
+			if start < 0 {
+				start = -1
+			}
+		}
+		if start >= n {
+			start = n - 1
+		}
+	}
+	if sl[1] != nil {
+		end = *sl[1]
+		if end < 0 {
+			end += n
+			if end < 0 {
+				end = -1
+			}
+		}
+		if end >= n {
+			end = n - 1
+		}
+	}
+	for i := start; i > end; i += step {
+		out = append(out, i)
+	}
+	return out
 }
